@@ -31,7 +31,7 @@ OBLIGATIONS = {"acyclic": 300, "cyclic": 100, "field:default": 100,
                "field:negatives": 100, "field:zeros": 50, "field:reachable-nodata": 50, "has-upstream": 200,
                "terminal-cell": 200, "reduced-max": 20, "random-forest": 5,
                "inputs-unaltered": 300, "dtype-variant": 100, "layout-variant": 50,
-               "field:wide-mantissa": 50, "field:tiny": 50}
+               "field:wide-mantissa": 50, "field:tiny": 50, "bounded-grid": 100}
 
 
 def mods():
@@ -56,7 +56,8 @@ def _layout(a, layout):
     return a
 
 
-def make_grids(codes, field, nodata, fd_dtype="i8", ta_dtype="f8", layout="C"):
+def make_grids(codes, field, nodata, fd_dtype="i8", ta_dtype="f8", layout="C",
+               bounded=False):
     g = mods()
     codes = np.asarray(codes, dtype=np.int64)
     nr, nc = codes.shape
@@ -76,6 +77,14 @@ def make_grids(codes, field, nodata, fd_dtype="i8", ta_dtype="f8", layout="C"):
             tdt = np.float64          # values or their sums need more than 24 bits
         ta = g.Grid("ta", nc, nr, dtype=tdt, nodata=nodata)
         ta.data = _layout(f, layout)
+        if bounded:
+            # documented Grid feature: admissible range of the *cell values* (here
+            # exactly the range of the field); sums and the no-data value lie outside
+            ta.mindata = float(np.min(f))
+            ta.maxdata = float(np.max(f))
+    elif bounded:
+        fd.mindata = float(np.min(codes))
+        fd.maxdata = float(np.max(codes))
     return fd, ta
 
 
@@ -109,7 +118,10 @@ def run_case(ctx, case):
     cyc = model.has_cycle()
     ctx.evaluated()
     fd, ta = make_grids(codes, field, nodata, case.get("fd_dtype", "i8"),
-                        case.get("ta_dtype", "f8"), case.get("layout", "C"))
+                        case.get("ta_dtype", "f8"), case.get("layout", "C"),
+                        bool(case.get("bounded", False)))
+    if case.get("bounded"):
+        ctx.tag("bounded-grid")
     if case.get("layout", "C") != "C" and min(codes.shape) > 1:
         ctx.tag("layout-variant")
     if case.get("fd_dtype", "i8") != "i8" or case.get("ta_dtype", "f8") != "f8":
@@ -204,7 +216,8 @@ def run(ctx):
                         "fieldname": nm,
                         "fd_dtype": ["i8", "i4", "u1", "f8"][idx % 4],
                         "ta_dtype": ["f8", "f4", "i8"][(idx // 4) % 3],
-                        "layout": ["C", "F", "C", "T", "C", "S"][(idx // 3) % 6]}
+                        "layout": ["C", "F", "C", "T", "C", "S"][(idx // 3) % 6],
+                        "bounded": (idx // 5) % 4 == 0}
                 run_case(ctx, case)
                 if idx % 7919 == 0 and nm == "negatives":
                     ctx.sample(case)
@@ -226,7 +239,8 @@ def run(ctx):
             run_case(ctx, {"kind": "acc", "codes": codes.tolist(),
                            "field": None if f is None else f.tolist(), "nodata": nd,
                            "fieldname": nm, "nprint": [100, 1, 7][it % 3],
-                           "layout": ["C", "F", "T", "S"][(it // 3) % 4]})
+                           "layout": ["C", "F", "T", "S"][(it // 3) % 4],
+                           "bounded": it % 2 == 0})
         rc = rng.choice(CODES, size=(nr, nc))
         run_case(ctx, {"kind": "acc", "codes": rc.tolist(), "field": None,
                        "nodata": 0.0, "fieldname": "default"})
